@@ -177,6 +177,36 @@ func c05main(c *Ctx) {
 			if c.R.WantSample() && len(cs.kvs) > 1 {
 				c.R.Sample(idx, desc, map[string]any{"payload": string(payload)})
 			}
+			// a parent and a child that bind the SAME key (the child: one of this case's values, possibly a group), with
+			// the inherit flag on: the child's record shows the key once, with the child's value; the parent's records -
+			// before and after the child logged - show the parent's
+			if len(cs.kvs) > 0 && r.P(12) {
+				kv := cs.kvs[r.Intn(len(cs.kvs))]
+				slog.AddFlags(slog.LattrsR)
+				slog.RemoveFlags(slog.Lcaller)
+				par := newRoot("par", FLogfmt, w, slog.AlwaysLevel)
+				par.Set(kv.Key, "the parent's value")
+				kid := par.New("kid")
+				kid.SetWriter(w).SetErrorWriter(w)
+				kid.SetAttrs(kv.Attr())
+				parKV := []gen.KV{{Key: kv.Key, Val: gen.V{Kind: "str", Text: "the parent's value", Go: "the parent's value"}}}
+				for step, x := range []struct {
+					lg   *slog.Entry
+					name string
+					kvs  []gen.KV
+				}{{par, "par", parKV}, {kid, "kid", []gen.KV{kv}}, {par, "par", parKV}, {kid, "kid", []gen.KV{kv}}} {
+					evs := capture(log, func() { x.lg.LogAttrs(bg, slog.InfoLevel, "shared-key") })
+					if len(evs) != 1 {
+						c.R.Violation(idx, "one-write", "C05/one-write/shared-key", fmt.Sprintf("expected exactly one Write, saw %s", fmtEvents(evs)), desc)
+						return
+					}
+					if vs := c05check(evs[0].Data, recCase{name: x.name, msg: "shared-key", lvl: slog.InfoLevel, kvs: x.kvs}); len(vs) > 0 {
+						c.R.Violation(idx, vs[0].clause, "C05/"+vs[0].clause+"/parent-and-child-bind-one-key/"+valueClass(kv.Val), fmt.Sprintf("step %d (%s logs; parent and child bind the key %q, inherit flag on): %s\npayload: %s", step, x.name, kv.Key, vs[0].detail, q(clip(string(evs[0].Data), 600))), desc)
+						return
+					}
+				}
+				c.R.Add("parent_and_child_binding_one_key", 1)
+			}
 			return
 		}
 		culprits, residual := explain(cs, run)
